@@ -5,7 +5,7 @@ import itertools
 
 from vmon import env, hooks
 from vmon.aromgen import (STANDARD, ANCHORED, EXOTIC, ALL_KINDS, standard_system, substituted_system,
-                          cage_system, CAGE_NAMES, pi_set, link_systems, single_ring_bonds, poly_aryl, union)
+                          cage_system, CAGE_NAMES, pi_set, link_systems, single_ring_bonds, poly_aryl, union, benzenoid_system)
 from vmon.molgen import random_tree_mol
 from vmon.hooks import MON, call_guard
 from vmon.matching import exact_pm, judge_matching, is_bipartite
@@ -326,6 +326,12 @@ def run(ctx):
         m, kind_of, ae = poly_aryl(rng)
         A.group(m, kind_of, ae, "standard", rng.choice([4, 6, 8]), "G6-polyaryl")
         ctx.count("polyaryl.groups")
+    for i in range(60 if quick else 2000):
+        # benzenoids: hexagons of the honeycomb lattice, cata- and peri-condensed (pyrene, perylene, coronene types and
+        # non-Kekulean ones such as phenalene), a few pyridine-type n
+        m, kind_of, ae = benzenoid_system(rng, hetero=rng.choice([0, 0, 0.1]))
+        A.group(m, kind_of, ae, "standard", rng.choice([4, 6]), "G6-benzenoid")
+        ctx.count("benzenoid.groups")
     direct_matching(ctx, sf)
     for i in range(150 if quick else 4000):
         sizes = rng.choice([(5, 6, 6, 6, 7), (5, 6, 6, 6, 7), (3, 4, 5, 6, 7, 8), (5, 5, 6, 7), (6,), (6,), (4, 6, 8)])
